@@ -4,10 +4,11 @@ from ..streammodel import sc_model
 
 ID = 'C03'
 RULE = ('one record per (variant, rounds, key, nonce, start block, data): output must equal data XOR position-indexed keystream of the '
-        'RFC 8439 / Bernstein / XChaCha / XSalsa models; start blocks include 2^32-2, 2^32-1 (seek) and 64-bit counters preset by hook; '
+        'RFC 8439 / Bernstein / XChaCha / XSalsa models; start blocks include 2^32-2, 2^32-1 and every 8/16/24-bit lane boundary of the counter words (seek) and 64-bit counters preset by hook; '
         'portable engine driven through the hook wrapper; distinct = (variant, rounds, keylen, key class, start class, length)')
 ASSUMPTIONS = ['pure-Python ChaCha/Salsa/HChaCha/HSalsa models pinned by RFC 8439, ECRYPT, NaCl and draft-xchacha vectors; ChaCha20 also vs openssl']
 FLOORS = {'evaluations': 3000, 'distinct': 1500}
+THOROUGH_ROUNDS = 150   # thorough tier: generator passes with derived seeds (runner.gen_rounds)
 
 VARIANTS = {  # variant: (key lengths, nonce length, counter bits, has seek)
     'chacha': ((16, 32), 12, 32, True), 'xchacha': ((32,), 24, 32, True), 'chachao': ((16, 32), 8, 64, False),
@@ -38,17 +39,19 @@ def gen(tier, seed):
                             # start block 0: zero data (pure keystream) and random data
                             yield 'sc %s %d %s %s p.0.%s #%s/%s/start0' % (v, rounds, key, nonce, '=00:%d' % ln if ln and rng.below(2) else rng.data(ln), kc, nc)
                 # starting blocks
-                starts = [1, 2, (1 << 32) - 2, (1 << 32) - 1]
+                # besides the word boundary: every byte / 16-bit lane boundary of the counter word (a vectorised increment done on the wrong lane width wraps there)
+                starts = [1, 2, (1 << 32) - 2, (1 << 32) - 1, 0xff, 0xffff, 0xffffff, (rng.rng(1, 0xfffe) << 16) | 0xffff, (rng.rng(1, 0xfffffe) << 8) | 0xff, 0x7fffffff, 0x80000000]
                 for st in starts:
                     key, nonce = rng.data(kl), rng.data(nl)
                     for ln in (64, 65, 129, 200, 300):
                         if has_seek:
-                            yield 'sc %s %d %s %s s.0.%d p.0.%s #rnd/rnd/seek%s' % (v, rounds, key, nonce, st, rng.data(ln), 'wrap' if st > 100 else 'low')
+                            yield 'sc %s %d %s %s s.0.%d p.0.%s #rnd/rnd/seek%s' % (v, rounds, key, nonce, st, rng.data(ln), 'wrap' if st >= (1 << 32) - 2 else ('lane' if st > 100 else 'low'))
                         else:
-                            yield 'sc %s %d %s %s S.0.%d p.0.%s #rnd/rnd/set%s' % (v, rounds, key, nonce, st, rng.data(ln), 'lowword' if st > 100 else 'low')
+                            yield 'sc %s %d %s %s S.0.%d p.0.%s #rnd/rnd/set%s' % (v, rounds, key, nonce, st, rng.data(ln), 'lowword' if st >= (1 << 32) - 2 else ('lane' if st > 100 else 'low'))
                 if bits == 64:
                     hi = rng.below(1 << 32)
-                    for st in [((hi << 32) | 0xfffffffe), ((hi << 32) | 0xffffffff), (1 << 64) - 2, (1 << 64) - 1, rng.below(1 << 64)]:
+                    for st in [((hi << 32) | 0xfffffffe), ((hi << 32) | 0xffffffff), (1 << 64) - 2, (1 << 64) - 1, rng.below(1 << 64),
+                               0xffffffff, 0xff_ffffffff, 0xffff_ffffffff, 0xffffff_ffffffff, 0x7fffffff_ffffffff, (rng.rng(1, 0xfffe) << 48) | 0xffff_ffffffff]:
                         key, nonce = rng.data(kl), rng.data(nl)
                         for ln in (64, 130, 200):
                             yield 'sc %s %d %s %s S.0.%d p.0.%s #rnd/rnd/set64' % (v, rounds, key, nonce, st, rng.data(ln))
